@@ -512,17 +512,6 @@ class Driver:
                         eof_early.append(s)      # the daemon had closed it before the client did
                     st.c.close()
                     st.closed = True
-        # bind the unique name the bus handed out
-        for s, idxs in hello_idx.items():
-            for i in idxs:
-                ser = rec_ops[s][i]['ser']
-                got = []
-                for m in obs[s]:
-                    if m['ty'] == 2 and m['rs'] == ser and m['args'] and m['args'][0]['t'] == 115:
-                        got = m['args'][0]['v']
-                rec_ops[s][i]['got'] = got
-                if got:
-                    self.slots[s].c.unique = bytes(got).decode('latin-1')
         # give the daemon a moment to process client closes (the model does not depend on it) -- except for clients
         # that wrote and left without a farewell ping: the bus has dispatched all they wrote only when it has seen
         # their end-of-file, i.e. when it has closed its side
@@ -555,6 +544,17 @@ class Driver:
                 st = self.slots[s]
                 if st.mute and not st.closed and not st.eof:
                     self.drain(s, obs[s], quiet=0.02)
+        # bind the unique name the bus handed out (after every inbox of this round has been read)
+        for s, idxs in hello_idx.items():
+            for i in idxs:
+                ser = rec_ops[s][i]['ser']
+                got = []
+                for m in obs[s]:
+                    if m['ty'] == 2 and m['rs'] == ser and m['args'] and m['args'][0]['t'] == 115:
+                        got = m['args'][0]['v']
+                rec_ops[s][i]['got'] = got
+                if got:
+                    self.slots[s].c.unique = bytes(got).decode('latin-1')
         eof = list(eof_early)
         for s in sorted(self.slots):
             st = self.slots[s]
